@@ -166,6 +166,7 @@ var checks = []Check{
 		Technique:   "preemption/delay-bounded stateless schedule exploration + exhaustive input/fragmentation enumeration on the real proxy stack",
 		Assumptions: engineAssumptions,
 		Jobs: []Job{
+			{Pkg: "proc/redis", Scenarios: []string{"C02/banned-pipeline"}, Shards: 8, QuickS: 60, ThoroughS: 240}, // with compression on: a reply that stays in the write buffer blocks every later reply of the connection
 			{Pkg: "proc/redis", Scenarios: []string{"C01/fragments"}, Shards: 16, QuickS: 70, ThoroughS: 240},
 			{Pkg: "proc/redis", Scenarios: []string{"C02/client"}, Shards: 16, QuickS: 80, ThoroughS: 240},
 			{Pkg: "proc/redis", Scenarios: []string{"C02/stack-race"}, Race: true, Shards: 1, QuickS: 120, ThoroughS: 240},
@@ -222,6 +223,7 @@ var checks = []Check{
 		Rule:        "distinct = (name, letter case, argument count, strategy, clock step) combinations issued",
 		Assumptions: append([]string{"Redis 5.0 command table with write flags embedded in the harness (written from the redis-server 5.0 command table)", "mini Redis Cluster node logs"}, engineAssumptions...),
 		Jobs: []Job{
+			{Pkg: "proc/redis", Scenarios: []string{"C12/reported-table"}, Shards: 8, QuickS: 60, ThoroughS: 240}, // however a master is listed, writes reach it and reads stay in its group
 			{Pkg: "proc/redis", Scenarios: []string{"C14/pipelines"}, Shards: 16, QuickS: 60, ThoroughS: 240},
 			{Pkg: "proc/redis", Scenarios: []string{"C14/commands"}, Shards: 12, QuickS: 120, ThoroughS: 240},
 			{Pkg: "proc/redis", Scenarios: []string{"C02/stack-race"}, Race: true, Shards: 1, QuickS: 120, ThoroughS: 240},
@@ -235,6 +237,7 @@ var checks = []Check{
 		Technique:   "explicit-state BFS over operation histories of the real proxy stack under a controlled scheduler (default schedule), reference-model comparison in every state",
 		Assumptions: append([]string{"mini Redis Cluster + single-server reference interpreter (/verif/sim/cluster) written from the Redis 5.0 documentation; the same interpreter is used on both sides so the comparison checks routing, splitting and relaying", "default schedule only (the quantifier of C03 is programs x inputs x layouts)"}, engineAssumptions...),
 		Jobs: []Job{
+			{Pkg: "proc/redis", Scenarios: []string{"C07/histories"}, Shards: 16, QuickS: 90, ThoroughS: 240}, // the layout is stable but connections come and go: replies stay those of a single server
 			{Pkg: "proc/redis", Scenarios: []string{"C03/programs"}, Shards: 16, QuickS: 100, ThoroughS: 240},
 			{Pkg: "proc/redis", Scenarios: []string{"C02/stack-race"}, Race: true, Shards: 1, QuickS: 120, ThoroughS: 240},
 			{Pkg: "proc/redis", Scenarios: []string{"C03/values"}, Shards: 16, QuickS: 60, ThoroughS: 240},
